@@ -3,11 +3,19 @@ from checks._chain_check import run_chain_check
 PID = "C06"
 ENGINES = ["chain"]
 
+NEED = {
+    "untouched_compared": 1500, "ProcessBlock:reject": 500, "ProcessBlock:ok_fork": 20, "ProcessHeader:reject": 20, "SyncHeaders:reject": 5,
+    "why:header": 50, "why:sums": 20, "why:lock": 5, "why:input_not_unspent": 5, "why:after_rewind:input_not_unspent": 10,
+    "why:badRoot": 3, "why:badSize": 3, "why:badKernelRoot": 3, "why:badRproofRoot": 3, "why:badKernelSize": 3,
+    "why:badRoot_with_tx": 2, "why:badSize_with_tx": 2, "why:badKernelRoot_with_tx": 2, "why:badRproofRoot_with_tx": 2, "why:badKernelSize_with_tx": 2,
+}
+
 
 def run(tier, replay):
     return run_chain_check(PID, tier, replay,
                            mc_quick=["mc/MC_Chain_flags_q"], mc_thorough=["mc/MC_Chain_flags_t"],
                            sim_cfg="mc/MC_Chain_simemit_flags", n_quick=160, n_thorough=1600,
-                           focus="RejectLeavesState / OnlyValidRemembered: blocks failing at header stage (badTime, badPrevRoot), body validation (badSums), UTXO/maturity (double spends, missing, duplicate commitments), and late after the working MMRs were modified (badRoot, badSize, badKernelRoot), plus valid losing-fork blocks; the full projection (head, header head, unspent set, leaf count, stored headers/bodies, sums of best-chain blocks, full validation) is compared after every failing call and the history continues afterwards",
+                           focus="RejectLeavesState / OnlyValidRemembered: blocks failing at header stage (badTime, badPrevRoot), body validation (badSums), UTXO/maturity (double spends, missing, duplicate commitments), and late after the working MMRs were modified (badRoot, badSize, badKernelRoot, badRproofRoot, badKernelSize - with and without a transaction whose inputs were already pruned), plus valid losing-fork blocks; after EVERY call that leaves the model's head where it was the four state roots, three MMR sizes, stored sums and spend records of the best-chain blocks are compared with the values sampled before the call, the full projection (head, header head, unspent set, enumeration, leaf / kernel counts, stored headers/bodies) after every call, full validation after every failing call on every 3rd behaviour; the history continues afterwards",
                            extra_sims=[("mc/MC_Chain_simemit_orphans", 60, 600)],
-                           assumptions=["transactions rejected by the pool are decided by C14"])
+                           assumptions=["transactions rejected by the pool are decided by C14"],
+                           need=NEED, vfail_quick=3)
